@@ -12,6 +12,7 @@ import numpy as np
 warnings.simplefilter('ignore')
 sys.path.insert(0, os.path.join(os.environ.get('VERIF_DIR', '/verif'), 'harness'))
 import c16_gen as G  # noqa: E402
+import c16x_impl as X  # noqa: E402
 
 
 def make_leg(npc, leg):
@@ -262,6 +263,8 @@ def build_operator(npc, sparse, case, M, leg):
             ovs[1] = 2.0 * ovs[0]
         ovn = [to_npc_vec(npc, o, leg, case['spec']['cplx']) for o in ovs]
         return sparse.OrthogonalNpcLinearOperator(H, ovn)
+    if wrap == 'tree':
+        return X.build_tree(npc, sparse, case['spec'], case['tree'], leg)
     return H
 
 
@@ -282,9 +285,19 @@ def run_lanczos(case):
     evo = case.get('evo')
     out = {}
 
+    psi0_cplx = bool(spec['cplx'] and not (case.get('real_psi0') and np.all(v0.imag == 0)))
+
+    def as_delta(d, how):
+        if how == 'complex':
+            return complex(*d)
+        if how == 'numpy':
+            return np.complex128(complex(*d)) if d[1] != 0 else np.float64(d[0])
+        return complex(*d) if d[1] != 0 else d[0]
+
     def one(options, trace):
         op = build_operator(npc, sparse, case, M, leg)
-        psi0 = to_npc_vec(npc, v0, leg, spec['cplx'])
+        psi0 = to_npc_vec(npc, v0, leg, psi0_cplx)
+        psi0_before = psi0.to_ndarray().copy()
         if evo is None:
             lan = krylov_based.LanczosGroundState(op, psi0, dict(options))
         else:
@@ -293,14 +306,25 @@ def run_lanczos(case):
         if evo is None:
             E, psi, N = lan.run()
         else:
-            psi, N = lan.run(complex(*evo['delta']) if evo['delta'][1] != 0 else evo['delta'][0], evo['normalize'])
+            if evo.get('normalize_kw', True):
+                psi, N = lan.run(as_delta(evo['delta'], evo.get('delta_as')), evo['normalize'])
+            else:
+                psi, N = lan.run(as_delta(evo['delta'], evo.get('delta_as')))      # the documented default of `normalize`
             E = 0.
         if tr is not None:
             tr.hlog_on = False
         r = {'E': float(np.real(E)), 'psi': vec_out(psi), 'N': int(N), 'qtotal_ok': bool(np.all(psi.qtotal == psi0.qtotal)),
              'alpha': [float(lan._h_krylov[k, k].real) for k in range(N)],
              'beta': [float(lan._h_krylov[k, k + 1].real) for k in range(N)],
-             'psi0_untouched': True}
+             'psi0_untouched': bool(np.array_equal(psi0.to_ndarray(), psi0_before) and psi0.dtype == psi0_before.dtype),
+             'psi_norm_obj': float(npc.norm(psi))}
+        if evo is None and case.get('rerun_same') and not trace:
+            # a second run() of the same solver object
+            try:
+                E2, psi2, N2 = lan.run()
+                r['rerun_same'] = {'E': float(np.real(E2)), 'psi': vec_out(psi2), 'N': int(N2)}
+            except Exception as e:
+                r['rerun_same'] = {'error': type(e).__name__ + ': ' + str(e)[:200]}
         if trace:
             evs, terms, problems = tr.events(bool(options.get('reortho', False)))
             r['events'] = evs
@@ -311,7 +335,7 @@ def run_lanczos(case):
             r['cv'] = [bool(evo is None and k in tr.cv_calls) for k in range(int(N))]
         if evo is not None and case.get('rerun'):
             d2 = case['rerun']
-            psi2, N2 = lan.run(complex(*d2) if d2[1] != 0 else d2[0], evo['normalize'])
+            psi2, N2 = lan.run(as_delta(d2, evo.get('delta_as')), evo['normalize'])
             r['rerun'] = {'psi': vec_out(psi2), 'N': int(N2)}
         return r
     try:
@@ -328,7 +352,7 @@ def run_lanczos(case):
         op = build_operator(npc, sparse, case, M, leg)
         res = []
         for _ in range(2):
-            psi0 = to_npc_vec(npc, v0, leg, spec['cplx'])
+            psi0 = to_npc_vec(npc, v0, leg, psi0_cplx)
             E, psi, N = krylov_based.LanczosGroundState(op, psi0, dict(opts)).run()
             res.append({'E': float(np.real(E)), 'psi': vec_out(psi), 'N': int(N)})
         out['twice'] = res
@@ -346,17 +370,31 @@ def run_arnoldi(case):
         v0 = v0.real
     opts = {k: v for k, v in case['opts'].items() if v is not None}
     op = build_operator(npc, sparse, case, M, leg)
-    psi0 = to_npc_vec(npc, v0, leg, spec['cplx'])
+    psi0 = to_npc_vec(npc, v0, leg, bool(spec['cplx'] or np.any(np.asarray(v0).imag != 0)))
+    psi0_before = psi0.to_ndarray().copy()
     try:
         if case.get('evo') is None:
-            Es, psis, N = krylov_based.Arnoldi(op, psi0, dict(opts)).run()
-            return {'Es': G.enc(np.asarray(Es, dtype=complex)), 'psis': [vec_out(p) for p in psis], 'N': int(N)}
+            eng = krylov_based.Arnoldi(op, psi0, dict(opts))
+            Es, psis, N = eng.run()
+            out = {'Es': G.enc(np.asarray(Es, dtype=complex)), 'psis': [vec_out(p) for p in psis], 'N': int(N),
+                   'psi0_untouched': bool(np.array_equal(psi0.to_ndarray(), psi0_before)),
+                   'qtotal_ok': bool(all(np.all(p.qtotal == psi0.qtotal) for p in psis))}
+            if case.get('rerun_same'):
+                try:
+                    Es2, psis2, N2 = eng.run()
+                    out['rerun_same'] = {'Es': G.enc(np.asarray(Es2, dtype=complex)), 'psis': [vec_out(p) for p in psis2], 'N': int(N2)}
+                except Exception as e:
+                    out['rerun_same'] = {'error': type(e).__name__ + ': ' + str(e)[:200]}
+            return out
         evo = case['evo']
         eng = krylov_based.ArnoldiEvolution(op, psi0, dict(opts))
         res = []
         for d in evo['deltas']:
-            delta = complex(*d) if d[1] != 0 else d[0]
-            psi, N = eng.run(delta, evo['normalize'])
+            delta = complex(*d) if (d[1] != 0 or evo.get('delta_as') == 'complex') else d[0]
+            if evo.get('normalize_kw', True):
+                psi, N = eng.run(delta, evo['normalize'])
+            else:
+                psi, N = eng.run(delta)
             res.append({'psi': vec_out(psi), 'N': int(N)})
         return {'runs': res}
     except Exception as e:
@@ -374,6 +412,9 @@ def run_gmres(case):
     b = G.start_vector(spec, M)
     x0 = G.extra_vectors(spec, M, 1, tag=3)[0] * case['x0_scale']
     A = to_npc_op(npc, M.astype(complex), leg)
+    if case.get('A_wrap'):
+        from tenpy.linalg import sparse
+        A = sparse.ShiftNpcLinearOperator(to_npc_op(npc, (M - case['diag_shift'] * np.eye(n)).astype(complex), leg), case['diag_shift'])
     opts = {k: v for k, v in case['opts'].items() if v is not None}
     try:
         x, res, total_error, iters = krylov_based.GMRES(A, to_npc_vec(npc, x0, leg, True, spec['sector']), to_npc_vec(npc, b, leg, True, spec['sector']),
@@ -540,11 +581,18 @@ def run_gs(case):
     for i in case.get('zero', []):
         if i < len(vs):
             vs[i] = vs[i] * 0
-    vn = [to_npc_vec(npc, v, leg, spec['cplx'], spec['sector']) for v in vs]
+    for i, sc in enumerate(case.get('scales') or []):
+        if i < len(vs):
+            vs[i] = vs[i] * sc
+    if case.get('real_first') and vs:
+        vs[0] = vs[0].real.astype(vs[0].dtype)
+    vn = [to_npc_vec(npc, v, leg, bool(spec['cplx'] and not (case.get('real_first') and i == 0)), spec['sector']) for i, v in enumerate(vs)]
     kw = {} if case.get('rcond') is None else {'rcond': case['rcond']}
     res = krylov_based.gram_schmidt(vn, **kw)
     return {'inputs': [G.enc(v) for v in vs], 'out': [vec_out(r) for r in res],
-            'inplace': bool(all(any(r is v for v in vn) for r in res))}
+            'inplace': bool(all(any(r is v for v in vn) for r in res)),
+            'kept_idx': [[i for i, v in enumerate(vn) if r is v][0] if any(r is v for v in vn) else -1 for r in res],
+            'dropped_unchanged_object': bool(all(isinstance(v, npc.Array) for v in vn))}
 
 
 def run_flat(case):
@@ -584,6 +632,30 @@ def run_flat(case):
                'compact': bool(op.compact_flat), 'blocked': bool(leg.is_blocked()), 'count': int(op.matvec_count)}
         if cs is None:
             out['full'] = G.enc(a.to_ndarray().sum(axis=1))
+            # flat_to_npc_None_sector: a flat vector living in one sector (plus noise below the cutoff elsewhere)
+            try:
+                I = G.sector_indices(spec['leg'], spec['sector'])
+                e = np.zeros(n, dtype=x.dtype)
+                e[I] = x[I]
+                noise = np.zeros(n)
+                if len(I) < n:
+                    noise[[i for i in range(n) if i not in I][0]] = 1e-13
+                kw2 = {} if case.get('none_cutoff') is None else {'cutoff': case['none_cutoff']}
+                an = op.flat_to_npc_None_sector(e + noise, **kw2)
+                out['none_sector'] = {'vec': G.enc(an.to_ndarray()), 'emb': G.enc(e), 'qtotal': [int(q) for q in an.qtotal],
+                                      'want_qtotal': [int(q) for q in leg.chinfo.make_valid(leg.get_charge(spec['sector']))], 'labels': list(an.get_leg_labels())}
+            except Exception as e:
+                out['none_sector'] = {'error': type(e).__name__ + ': ' + str(e)[:200]}
+        else:
+            # an exactly zero npc vector (no block stored) of the sector
+            try:
+                z = npc.zeros([leg], x.dtype, op.charge_sector, labels=[op.vec_label])
+                out['zero_flat'] = G.enc(op.npc_to_flat(z))
+            except Exception as e:
+                out['zero_flat'] = {'error': type(e).__name__ + ': ' + str(e)[:200]}
+            y2 = op.matvec(x)
+            out['y2'] = G.enc(y2)
+            out['count2'] = int(op.matvec_count)
         return out
     # mode 'pipe': an operator acting on a two-leg vector  theta[a, b];  K = kron(MA, 1) + kron(1, MB)
     spec2 = case['spec2']
@@ -600,8 +672,12 @@ def run_flat(case):
         r = npc.tensordot(HA, th, axes=['a*', 'a']) + npc.tensordot(HB, th, axes=['b*', 'b']).itranspose(['a', 'b'])
         return r
     cls = sparse.FlatHermitianOperator if case.get('herm_cls') else sparse.FlatLinearOperator
-    op, gflat = cls.from_guess_with_pipe(matvec, theta, labels_split=case.get('labels_split'),
-                                         compact_flat=case['compact_flat'])
+    kwp = {}
+    if case.get('dtype') is not None:
+        kwp['dtype'] = {'complex': np.complex128, 'float': np.float64}[case['dtype']]
+    if case.get('compact_flat_kw', True):
+        kwp['compact_flat'] = case['compact_flat']
+    op, gflat = cls.from_guess_with_pipe(matvec, theta, labels_split=case.get('labels_split'), **kwp)
     n = op.shape[0]
     x = rs.standard_normal(n) + (1j * rs.standard_normal(n) if (spec['cplx'] or spec2['cplx']) else 0)
     y = op.matvec(x)
@@ -610,8 +686,12 @@ def run_flat(case):
     a2 = a.split_legs(0).itranspose(['a', 'b'])
     g_back = op.flat_to_npc(gflat).split_legs(0).itranspose(['a', 'b'])
     ya = op.flat_to_npc(y).split_legs(0).itranspose(['a', 'b'])
+    # the wrapper also accepts the multi-leg form (legs not combined) and returns it that way
+    ml = op.npc_matvec(a2.copy())
     return {'shape': n, 'x_full': G.enc(a2.to_ndarray()), 'y_full': G.enc(ya.to_ndarray()), 'back': G.enc(back),
-            'x': G.enc(x), 'guess_back': G.enc(g_back.to_ndarray()), 'guess': G.enc(guess)}
+            'x': G.enc(x), 'guess_back': G.enc(g_back.to_ndarray()), 'guess': G.enc(guess),
+            'multileg': G.enc(ml.transpose(['a', 'b']).to_ndarray()), 'multileg_rank': int(ml.rank),
+            'op_dtype': str(np.dtype(op.dtype)), 'compact': bool(op.compact_flat), 'count': int(op.matvec_count)}
 
 
 def run_argsort(case):
@@ -625,15 +705,20 @@ def run_argsort(case):
 
 def main():
     payload = json.load(open(sys.argv[1]))
+    how = X.start_monitor()
+    if payload.get('kind') == 'reflect':
+        json.dump({'reflect': X.reflect()}, open(sys.argv[2], 'w'))
+        return
     f = {'lanczos': run_lanczos, 'arnoldi': run_arnoldi, 'gmres': run_gmres, 'gmresr': run_gmres_restart, 'gs': run_gs,
-         'flat': run_flat, 'argsort': run_argsort}
+         'flat': run_flat, 'argsort': run_argsort, 'wrapper': X.run_wrapper, 'flateig': X.run_flateig, 'arpack': X.run_arpack}
     res = []
     for c in payload['cases']:
         try:
             res.append(f[c['kind']](c))
         except Exception:
             res.append({'runner_error': traceback.format_exc()[-1200:]})
-    json.dump(res, open(sys.argv[2], 'w'), default=lambda o: o.item() if hasattr(o, 'item') else str(o))
+    json.dump({'res': res, 'lines': X.hit_lines(), 'trace': how}, open(sys.argv[2], 'w'),
+              default=lambda o: o.item() if hasattr(o, 'item') else str(o))
 
 
 if __name__ == '__main__':
